@@ -332,7 +332,13 @@ func (f *file) decodeInverted(res *Result, name string, addr uint64, fieldName m
 	if r.err != nil {
 		return r.err
 	}
-	if dictLoc != 0 {
+	if dictLoc == 0 {
+		// the layout has no "no dictionary" value here: every field record of the inverted
+		// section points at a 'length | FST' record (an empty FST for a field without terms),
+		// and offset 0 is the first stored-document block
+		return fmt.Errorf("dictionary offset 0 in the field's record of the inverted section: not the position of a 'length | FST' record")
+	}
+	{
 		dr := &reader{b: f.mem, pos: dictLoc}
 		vl := dr.uvarint()
 		vb := dr.bytes(vl)
